@@ -193,25 +193,90 @@ pub fn pattern_keys(seed: u64) -> Vec<(String, [u8; 32])> {
         assert_eq!(got, want, "hard-coded pattern key '{}' does not have its pattern", name);
         v.push((format!("sk with {}", name), kb));
     }
+    // keys whose public key / proof of possession encoding ENDS in bytes a text-minded decoder might strip (found once
+    // with `blsful-mc tool pattern-tails`; key = KeyGen("verif pattern key #i"))
+    for (name, i) in [
+        ("G2 public key ending in CR LF", 38121u32),
+        ("G1 public key ending in CR LF", 7475),
+        ("G1 proof of possession ending in CR LF", 31142),
+        ("G2 proof of possession ending in CR LF", 216466),
+        ("G2 public key ending in NUL NUL", 27372),
+        ("G1 public key ending in NUL NUL", 79661),
+        ("G1 proof of possession ending in NUL NUL", 201351),
+        ("G2 proof of possession ending in NUL NUL", 13827),
+        ("G2 public key ending in two spaces", 63895),
+        ("G1 public key ending in two spaces", 8554),
+        ("G1 proof of possession ending in two spaces", 64926),
+        ("G2 proof of possession ending in two spaces", 34962),
+        // a coordinate whose leading byte equals the leading byte of the field modulus (0x1a)
+        ("G2 public key x.c1 leading byte 1a", 6126),
+        ("G2 public key x.c0 leading byte 1a", 1718),
+        ("G1 proof of possession leading byte 1a", 15954),
+        ("G1 public key leading byte 1a", 341),
+        ("G2 proof of possession x.c1 leading byte 1a", 4173),
+        ("G2 proof of possession x.c0 leading byte 1a", 8512),
+        // the first THREE bytes of a coordinate equal those of the field modulus (1a 01 11): about one value in 1.9 million
+        ("G2 public key x.c1 starting 1a0111", 693928),
+        ("G1 public key starting 1a0111", 386541),
+        ("G2 proof of possession x.c1 starting 1a0111", 1212917),
+    ] {
+        v.push((format!("sk with {}", name), rf::scalar_to_be(&rf::keygen(format!("verif pattern key #{}", i).as_bytes()))));
+    }
+    // the same for proofs of possession in G1 and G2, found by another search (KeyGen of these labels)
+    for (name, label) in [("G1 proof of possession starting 1a0111", "seed9-C09-g1-308058"), ("G2 proof of possession starting 1a0111 (second)", "seed9-C09-g2-1302082")] {
+        v.push((format!("sk with {}", name), rf::scalar_to_be(&rf::keygen(label.as_bytes()))));
+    }
     CACHE.lock().unwrap().push((seed, v.clone()));
     v
 }
 
 // ---- message alphabet ---------------------------------------------------------------------------
 
-/// dense band of lengths: every length up to 300, every multiple of 100 up to 2000 and both neighbours of the usual
-/// chunk and batch sizes (1000, 1024, 2048, 4096, 8192, 10000, 100000)
+/// dense band of lengths: every length up to 1100 and both neighbours of 41 round numbers between 1200 and 2^20
 pub fn dense_lens() -> Vec<usize> {
-    let mut v: Vec<usize> = (0..=300).collect();
-    v.extend((4..=20).map(|i| i * 100));
-    for c in [1000usize, 1024, 2048, 4096, 8192, 10_000, 100_000] {
+    // every length up to 1100, and both neighbours of the round numbers a size limit, chunk size or buffer is likely to be
+    let mut v: Vec<usize> = (0..=1100).collect();
+    for c in [
+        1200usize, 1280, 1400, 1500, 1536, 1600, 1800, 2000, 2048, 2500, 3000, 3072, 4000, 4096, 5000, 6000, 8000, 8192, 10_000, 12_000, 12_288, 16_000, 16_384, 20_000, 24_576, 30_000,
+        32_000, 32_768, 40_000, 50_000, 64_000, 65_000, 65_536, 100_000, 131_072, 200_000, 262_144, 500_000, 524_288, 1_000_000, 1_048_576,
+    ] {
         v.extend([c - 1, c, c + 1]);
+    }
+    // multiples of the absorb / squeeze rates and block sizes of the hash functions in use (SHAKE128: 168, SHA3-256: 136,
+    // SHA-256: 64), minus 0..3 bytes for a length prefix: chunked masking and hashing code changes behaviour there
+    for k in 1..=200usize {
+        for d in 0..=3usize {
+            v.push(168 * k - d);
+        }
+    }
+    for k in 1..=64usize {
+        for d in 0..=3usize {
+            v.push(136 * k - d);
+            v.push(64 * k - d);
+        }
     }
     v.sort();
     v.dedup();
     v
 }
 
+/// Shares of `secret` on a polynomial of degree 2 crafted so that two participants hold the SAME value:
+/// f(x) = s + a1 x + a2 x^2 with a1 = -3 a2 gives f(1) = f(2). Identifiers 1..=n.
+pub fn shares_with_equal_values<C: Suite>(secret: &SecretKey<C>, n: u8) -> Vec<SecretKeyShare<C>> {
+    use blsful::inner_types::Field;
+    use blsful::vsss_rs::Share;
+    let a2 = SecretKey::<C>::from_hash(b"equal valued shares").0;
+    let a1 = -(a2 + a2 + a2);
+    (1..=n)
+        .map(|i| {
+            let mut x = Sc::<C>::ZERO;
+            for _ in 0..i {
+                x += Sc::<C>::ONE;
+            }
+            SecretKeyShare::<C>(<C as Pairing>::SecretKeyShare::from_field_element(i, secret.0 + a1 * x + a2 * x * x).expect("share from field element"))
+        })
+        .collect()
+}
 
 #[derive(Clone)]
 pub struct MsgAlpha {
@@ -263,6 +328,63 @@ pub fn msg_alphabet(seed: u64, full: bool) -> MsgAlpha {
         ("utf8-bom", vec![0xef, 0xbb, 0xbf, b'x']),
     ] {
         names.push(format!("msg(len={},content={})", m.len(), n));
+        msgs.push(m);
+    }
+    // messages whose hash-to-curve point, or whose Basic signature under the first derived key of seed 1, has a
+    // coordinate next to the field modulus (leading bytes 1a01) or with 16 leading zero bits - found once with
+    // `blsful-mc tool pattern-messages` (the property of the derived value is re-validated by C03's comparison with
+    // the reference, which computes the same bytes); signed under every key like any other message
+    for (what, i) in [
+        ("G1 hash just below the modulus", 9287u32),
+        ("G1 hash with leading zero bits", 14236),
+        ("G1 signature just below the modulus", 95260),
+        ("G1 signature with leading zero bits", 5571),
+        ("G2 hash x.c1 just below the modulus", 198325),
+        ("G2 hash x.c1 with leading zero bits", 600),
+        ("G2 hash x.c0 just below the modulus", 4485),
+        ("G2 hash x.c0 with leading zero bits", 6136),
+        ("G2 signature x.c1 just below the modulus", 183131),
+        ("G2 signature x.c1 with leading zero bits", 780),
+        ("G2 signature x.c0 just below the modulus", 2177),
+        ("G2 signature x.c0 with leading zero bits", 183),
+        // signatures (under the first derived key) ENDING in CR LF / NUL NUL / two spaces, per group and scheme
+        ("G1 Basic signature ending in CR LF", 32567),
+        ("G1 MessageAugmentation signature ending in CR LF", 87904),
+        ("G1 ProofOfPossession signature ending in CR LF", 54891),
+        ("G2 Basic signature ending in CR LF", 116608),
+        ("G2 MessageAugmentation signature ending in CR LF", 18335),
+        ("G2 ProofOfPossession signature ending in CR LF", 78209),
+        ("G1 Basic signature ending in NUL NUL", 91422),
+        ("G1 MessageAugmentation signature ending in NUL NUL", 11037),
+        ("G1 ProofOfPossession signature ending in NUL NUL", 17611),
+        ("G2 Basic signature ending in NUL NUL", 117575),
+        ("G2 MessageAugmentation signature ending in NUL NUL", 3075),
+        ("G2 ProofOfPossession signature ending in NUL NUL", 64997),
+        ("G1 Basic signature ending in two spaces", 24398),
+        ("G1 MessageAugmentation signature ending in two spaces", 11250),
+        ("G1 ProofOfPossession signature ending in two spaces", 83987),
+        ("G2 Basic signature ending in two spaces", 94308),
+        ("G2 MessageAugmentation signature ending in two spaces", 629),
+        ("G2 ProofOfPossession signature ending in two spaces", 11470),
+        // signatures with a coordinate whose leading byte equals the leading byte of the field modulus (0x1a)
+        ("G1 Basic signature leading byte 1a", 1171),
+        ("G1 MessageAugmentation signature leading byte 1a", 5434),
+        ("G1 ProofOfPossession signature leading byte 1a", 4471),
+        ("G2 Basic signature x.c1 leading byte 1a", 873),
+        ("G2 Basic signature x.c0 leading byte 1a", 2177),
+        ("G2 MessageAugmentation signature x.c1 leading byte 1a", 15306),
+        ("G2 MessageAugmentation signature x.c0 leading byte 1a", 2079),
+        ("G2 ProofOfPossession signature x.c1 leading byte 1a", 11455),
+        ("G2 ProofOfPossession signature x.c0 leading byte 1a", 5102),
+        // first three bytes of the signature's (first) coordinate equal those of the field modulus
+        ("G1 MessageAugmentation signature starting 1a0111", 1364281),
+        ("G1 ProofOfPossession signature starting 1a0111", 566601),
+        ("G2 MessageAugmentation signature x.c1 starting 1a0111", 1204822),
+        ("G2 Basic signature x.c1 starting 1a0111", 2418956),
+        ("G2 ProofOfPossession signature x.c1 starting 1a0111", 712519),
+    ] {
+        let m = format!("verif pattern message #{}", i).into_bytes();
+        names.push(format!("msg(len={},content=pattern: {})", m.len(), what));
         msgs.push(m);
     }
     MsgAlpha { names, msgs }
@@ -615,4 +737,31 @@ pub fn limb_edge_scalars() -> Vec<(String, [u8; 32])> {
         assert!(rf::scalar_from_be(b).is_some(), "limb edge scalar '{}' is not canonical", n);
     }
     v
+}
+
+// ---- parallel construction of model tables ------------------------------------------------------------------------
+
+struct SendPtr<T>(T);
+unsafe impl<T> Send for SendPtr<T> {}
+unsafe impl<T> Sync for SendPtr<T> {}
+
+/// `(0..n).map(f)` on 16 threads. The values are plain data of the two concrete curve assignments (see
+/// `engine::AssertSync`); the generic associated types merely hide that from the compiler.
+pub fn par_table<T, F: Fn(usize) -> T>(n: usize, f: F) -> Vec<T> {
+    let f = SendPtr(&f);
+    let threads = 16usize;
+    let chunk = (n + threads - 1) / threads.max(1);
+    let mut parts: Vec<SendPtr<Vec<T>>> = std::thread::scope(|sc| {
+        let hs: Vec<_> = (0..threads)
+            .map(|t| {
+                let f = &f;
+                sc.spawn(move || {
+                    let f = f;
+                    SendPtr((t * chunk..((t + 1) * chunk).min(n)).map(|i| (f.0)(i)).collect::<Vec<T>>())
+                })
+            })
+            .collect();
+        hs.into_iter().map(|h| h.join().expect("table construction panicked")).collect()
+    });
+    parts.drain(..).flat_map(|p| p.0).collect()
 }
